@@ -64,7 +64,7 @@ theorem swapLoop_spec (z : Fin N) {start : Fin N} {kp : Nat} (hstart : start = p
       (by omega)
     refine ⟨t2, ?_, by rw [h2]; rfl, ?_⟩
     · rw [← hnu] at h1
-      simp only [swapLoop, decide_true, Bool.not_true, Bool.false_eq_true, if_false, incr_pos, hne]
+      simp only [swapLoop, Bool.false_eq_true, if_false, incr_pos, hne]
       exact h1
     · intro k hk
       rw [h3 k hk]
